@@ -32,6 +32,15 @@ def run(ctx):
         if len(text) >= 2:
             ctx.distinct.add(c[2])
         bad = lexgen.oracle(text, ri or 'missing')
+        # classification both ways: a Subexpression token is a run of blanks with at least two newlines, nothing else
+        if not bad and ri and ri.startswith('ok'):
+            for f in ri.split('\t')[1:]:
+                ty, row, col, tx = f.split(',', 3)
+                tx = vlib.unesc(tx)
+                if ty == 'Subexpression' and tx.count('\n') < 2 and all(ch in ' \t\n' for ch in tx):
+                    bad = ['subexpression-without-blank-line']
+                if ty == 'Whitespace' and '\r' not in tx and '\x0c' not in tx and tx.count('\n') >= 2:
+                    bad = ['blank-line-typed-whitespace']
         if bad:
             ctx.fail('oracle', c, impl=ri, model=rm, expect='; '.join(bad), note='C13 violated on this input: ' + ', '.join(bad))
             continue
